@@ -63,7 +63,10 @@ def make_case(rc):
         if via == 'direct':
             out = I.outcome(lambda: rt._search(f, w, s))
         else:
-            out = I.eval_formula('=SEARCH(A2,A1%s)' % ('' if s is None else ',%d' % s), {'A1': w, 'A2': f}, addr='D4')
+            if rc.get('lit'):
+                out = I.eval_formula('=SEARCH("%s",A1%s)' % (f, '' if s is None else ',%d' % s), {'A1': w}, addr='D4')
+            else:
+                out = I.eval_formula('=SEARCH(A2,A1%s)' % ('' if s is None else ',%d' % s), {'A1': w, 'A2': f}, addr='D4')
         coq = 'CSearch %s %s %s %s' % (C.cstr(f), C.cstr(w), C.copt(s, C.cz), C.cres(out))
         nt = any(c in f for c in '?*~') or (s is not None and (s <= 1 or s >= len(w)))
     elif k == 'amp':
@@ -122,8 +125,8 @@ def gen_recipes(rng, n):
             out.append({'kind': 'mid', 't': t, 'k': rng.randint(-1, len(t) + 2), 'n': rng.randint(-1, len(t) + 2), 'via': via,
                         'lit': via == 'formula' and not any(ch in t for ch in '"?*~') and rng.random() < 0.5})
         elif r < 0.7:
-            w = rtext(rng, 6, ['a', 'b', 'B', 'A', 'c', '.', '*', '?', '~', ' '])
-            f = rtext(rng, 3, ['a', 'B', 'b', '?', '*', '~', '.', 'c'])
+            w = rtext(rng, 6, ['a', 'b', 'B', 'A', 'c', '.', '*', '?', '~', ' ', '(', '+', '$'])
+            f = rtext(rng, 3, ['a', 'B', 'b', '?', '*', '~', '.', 'c', '(', '+', '$'])
             if rng.random() < 0.4 and len(w) >= 2:
                 i = rng.randint(0, len(w) - 1); f = w[i:i + rng.randint(1, 3)]
                 if rng.random() < 0.5:
@@ -139,7 +142,7 @@ def gen_recipes(rng, n):
             s = rng.choice([None, None, 1, rng.randint(-1, len(w) + 2)])
             if via == 'formula' and (w == '' or f == '' or w.startswith('=') or f.startswith('=') or w != w.strip() or (s is not None and s < 0)):
                 via = 'direct'
-            out.append({'kind': 'search', 'f': f, 'w': w, 's': s, 'via': via})
+            out.append({'kind': 'search', 'f': f, 'w': w, 's': s, 'via': via, 'lit': via == 'formula' and not any(ch in f for ch in '"?*~') and rng.random() < 0.6})
         elif r < 0.8:
             pool = ['abc', '', 'x y', 7, -3, 0, 0, 10, 2.5, 2.0, 0.1, True, False, {'E': 1}, 10 ** 20, 'Q']
             jp = [p if isinstance(p, dict) else C.jenc(p) for p in pool]
